@@ -115,9 +115,10 @@ Print Assumptions C11_status_dav_partial.
 (** ** The principal helper *)
 
 (** webdav.ServePrincipal: one response, carrying the request path, accounting
-    for the request; otherwise 400. *)
-Theorem C11_principal : forall cup homesets path ct bd,
-  match serve_principal cup homesets path ct bd with
+    for the request, whatever the (valid) Depth — a principal has no members;
+    otherwise (body that is not a propfind, no form, invalid Depth) 400. *)
+Theorem C11_principal : forall cup homesets path ct bd dh,
+  match serve_principal cup homesets path ct bd dh with
   | Ok rs => exists pf r, decode_propfind_request ct bd = Ok pf /\ rs = [r] /\ r_href r = path /\
                           accounted pf (principal_props cup homesets) r
   | Err c => c = 400%N
@@ -149,7 +150,7 @@ Theorem C11_dav_meets_spec : forall t rs rt ct bd dh,
 Proof. exact dav_meets_spec. Qed.
 Print Assumptions C11_dav_meets_spec.
 
-Theorem C11_principal_meets_spec : forall cup homesets path ct bd,
-  principal_spec cup homesets (rid path) ct bd (observe (principal_model cup homesets path ct bd)) = true.
+Theorem C11_principal_meets_spec : forall cup homesets path ct bd dh,
+  principal_spec cup homesets (rid path) ct bd dh (observe (principal_model cup homesets path ct bd dh)) = true.
 Proof. exact principal_meets_spec. Qed.
 Print Assumptions C11_principal_meets_spec.
